@@ -53,7 +53,19 @@ def boot(quiet: bool = True):
     import logging
 
     logging.disable(logging.CRITICAL)
-    import primaite  # noqa
+    # primaite reads the user-level primaite_config.yaml at import; the repository's own dev-cli tests rewrite that
+    # file, so an import that races with a concurrent test run can find it half-written: retry
+    for attempt in range(6):
+        try:
+            import primaite  # noqa
+
+            break
+        except (TypeError, KeyError, AttributeError):
+            for m in [k for k in sys.modules if k == "primaite" or k.startswith("primaite.")]:
+                del sys.modules[m]
+            if attempt == 5:
+                raise
+            time.sleep(3)
 
     if not str(Path(primaite.__file__).resolve()).startswith(str((REPO / "src").resolve())):
         raise RuntimeError(f"primaite imported from {primaite.__file__}, expected {src}")
